@@ -175,6 +175,11 @@ class RHSemantics(object):
             return TupleVal([Const(Flt(Fraction(x), x)) for x in ([BASE] + OTHER_SCORES)[:n]])
         if name in ("base_score",):
             return None
+        f_ = self.cls.methods.get(name)
+        if f_ is not None and name.startswith("_") and not name.startswith("__") and not f_.is_classmethod and not f_.is_staticmethod and not getattr(f_, "is_property", False):
+            # a private helper of the class called on the constructed object (the score check moved
+            # into a method): interpreted with the object token as self
+            return self.ev.inline(st, f_, None, [recv] + list(args), kwargs, node, module)
         raise AnalysisError("C12.sem", "method %s of the constructed object is not modelled here" % name, node, module)
 
     def outcome(self, s):
